@@ -31,10 +31,14 @@ def run(prop, tier, seed, t0):
     passes = [[]]
     if thorough:
         passes += [['fault2=1'], ['fault2=2'], ['fault2=5'], ['fault2=%d' % (3 + seed % 7)]]
+    # abandon=1: the object is freed straight after the first failed operation (no reset, no retry): quick for the MT / streaming scenarios, thorough for all
+    passes += [['abandon=1']]
     with ThreadPoolExecutor(core.NPROC) as ex:
         futs = []
         for extra in passes:
             for (s, name, n, dom) in counts:
+                if extra == ['abandon=1'] and not thorough and not ('mt' in name or 'stream' in name):
+                    continue
                 shards = max(1, min(core.NPROC, n // 6))
                 if name.startswith('zdict_opt') or name.endswith('_mt') or 'mt' in name:
                     shards = max(1, min(core.NPROC, n // 3))
@@ -69,7 +73,7 @@ def run(prop, tier, seed, t0):
         'evaluations': res.stat('runs'),
         'distinct_nontrivial': res.ncells('failed_alloc_index'),
         'rule': 'scenario catalogue x EVERY allocation index k=1..allocs(S) (exhaustive per scenario; custom-allocator domain via ZSTD_customMem, default domain via --wrap=malloc/calloc); '
-                'distinct non-trivial = distinct (scenario, k) whose injected NULL was actually returned to the library; thorough adds a second fault 1/2/5/j allocations later',
+                'distinct non-trivial = distinct (scenario, k) whose injected NULL was actually returned to the library; thorough adds a second fault 1/2/5/j allocations later; an extra pass frees the object straight after the first failure instead of resetting and retrying',
         'exhaustive': True,
         'scenarios': {name: {'allocations': n, 'domain': 'default(malloc)' if d else 'custom(ZSTD_customMem)'} for (_, name, n, d) in counts},
         'allocation_indices_total': total, 'injections_fired': res.stat('injections_fired'), 'clean_errors': res.stat('clean_errors'),
